@@ -180,8 +180,9 @@ fn hostile_cfg() -> BoxedStrategy<FileCfg> {
         prop::bool::weighted(0.2),
         any::<bool>(),
         any::<bool>(),
+        crate::mr::build_variant_strat(),
     )
-        .prop_map(|(rot, mode, suffix, basename, discr, start_ts, utc, via_logger, symlink)| {
+        .prop_map(|(rot, mode, suffix, basename, discr, start_ts, utc, via_logger, symlink, build_variant)| {
             let rot = rot.map(|(crit, nam, cln)| Rot { crit: fix_crit(crit, &nam), nam, cln });
             let empty_infix = match &rot {
                 None => true,
@@ -206,6 +207,7 @@ fn hostile_cfg() -> BoxedStrategy<FileCfg> {
                 symlink,
                 bg_cleanup: false,
                 via_logger: via_logger && !utc,
+                build_variant,
             }
         })
         .boxed()
